@@ -378,3 +378,55 @@ Proof.
   - destruct (parse_wildcard s) as [w|] eqn:Ew; [|discriminate]. intros H; inversion H; subst.
     exists w. split; [now apply parse_iff|reflexivity].
 Qed.
+
+(* ---------- strings with a colon; the C-ABI filter string in full ---------- *)
+Definition wildcard_char (c : N) : Prop := c = 42 \/ c = 43 \/ c = 46 \/ (48 <= c /\ c <= 57).
+
+Lemma field_chars f p : field f p -> Forall wildcard_char f.
+Proof.
+  intros H. inversion H as [|g ds Hne Hd Hv|g ds Hne Hd Hv]; subst.
+  - repeat constructor.
+  - clear - Hd. induction Hd as [|c d g ds Hc _ IH]; constructor; [|exact IH].
+    destruct Hc as (H1 & H2 & _). right; right; right. split; assumption.
+  - constructor; [right; left; reflexivity|]. clear - Hd.
+    induction Hd as [|c d g ds Hc _ IH]; constructor; [|exact IH].
+    destruct Hc as (H1 & H2 & _). right; right; right. split; assumption.
+Qed.
+
+Lemma wildcard_string_chars s w : wildcard_string s w -> Forall wildcard_char s.
+Proof.
+  intros (f3 & f2 & f1 & f0 & -> & _ & _ & _ & _ & H3 & H2 & H1 & H0).
+  apply field_chars in H3, H2, H1, H0. cbn [join].
+  repeat (apply Forall_app; split; [assumption|constructor; [right; right; left; reflexivity|]]). assumption.
+Qed.
+
+(* a string containing ':' (58) is never accepted by the wildcard parser, nor as an IPv4 literal *)
+Theorem colon_never_wildcard s : In 58 s -> parse_wildcard s = None.
+Proof.
+  intros Hin. destruct (parse_wildcard s) as [w|] eqn:E; [|reflexivity].
+  apply parse_iff in E. apply wildcard_string_chars in E. rewrite Forall_forall in E.
+  specialize (E 58 Hin). unfold wildcard_char in E. lia.
+Qed.
+
+Theorem colon_never_ipv4 s : In 58 s -> parse_ipv4 s = None.
+Proof.
+  intros Hin. destruct (parse_ipv4 s) as [x|] eqn:E; [|reflexivity].
+  destruct (parse_ipv4_is_v4 s x E) as (a & b & c & d & ->).
+  apply ipv4_literal_is_wildcard in E. rewrite (colon_never_wildcard s Hin) in E. discriminate.
+Qed.
+
+(* ANY IPv6 literal parser that accepts only strings containing a colon (every textual IPv6 address has one) *)
+Theorem ffi_filter_semantics (parse_v6 : str -> option ip) :
+  (forall s a, parse_v6 s = Some a -> In 58 s) ->
+  forall s f, ffi_filter parse_v6 s = Some f ->
+  (exists w, wildcard_string s w /\ forall peer, matches f peer = matches (WildcardIpv4 w) peer) \/
+  (exists a, parse_v6 s = Some a /\ parse_wildcard s = None /\ forall peer, matches f peer = true <-> peer = a).
+Proof.
+  intros v6_has_colon s f. unfold ffi_filter. destruct (parse_ipv4 s) as [x|] eqn:E4.
+  - intros H. left. apply (ffi_filter_is_wildcard_semantics s f). unfold ffi_filter_v4. now rewrite E4.
+  - destruct (parse_v6 s) as [a|] eqn:E6.
+    + intros H; inversion H; subst. right. exists a. split; [reflexivity|]. split.
+      * apply colon_never_wildcard. eapply v6_has_colon; eassumption.
+      * intros peer. rewrite matches_iff. cbn [admits In]. intuition congruence.
+    + intros H. left. apply (ffi_filter_is_wildcard_semantics s f). unfold ffi_filter_v4. now rewrite E4.
+Qed.
